@@ -376,7 +376,8 @@ class Simplex:
                     self.basic.add(s)
                     self.non_basic.add(var_name)
                     if var_name not in self.mapping:
-                        self.mapping.update({var_name : 0, s : 0})
+                        self.mapping[var_name] = 0
+                    self.mapping[s] = coeff * self.mapping[var_name]
                     self.bound[s] = (-math.inf, math.inf)
                     if var_name not in self.nbasic_basic:
                         self.nbasic_basic[var_name] = {s}
